@@ -85,6 +85,37 @@ Theorem C10_trailing_dot_ignored : forall tbl h,
 Proof. exact trailing_dot_ignored. Qed.
 Print Assumptions C10_trailing_dot_ignored.
 
+(* The reversed-string preprocessing is faithful to plain host labels: splitting the reversed string gives the
+   natural labels reversed in order and character-wise (strings.Split o ReverseFqdnHost = rv o labels). *)
+Theorem C10_split_reverse : forall c s, split_byte c (rev s) = rv (split_byte c s).
+Proof. exact split_rev. Qed.
+Print Assumptions C10_split_reverse.
+
+(* HEADLINE on natural labels, the form in the property text.  spec_product never reverses a string: it splits the
+   lower-cased, port-less host (one trailing dot dropped) into labels l1.l2...ln and picks the configured host with
+   exactly these labels, else the configured "*.s" for the longest proper suffix s of the labels, else the VIP's
+   product, else the default product, else ErrNoProduct.  The modelled LookupHostTagAndProduct computes exactly that,
+   for every table, VIP table, default product, request host and VIP. *)
+Theorem C10_lookup_product_refines_spec : forall tbl vips dflt host vip,
+  lookup_product tbl vips dflt host vip = spec_product tbl vips dflt host vip.
+Proof. exact lookup_product_natural. Qed.
+Print Assumptions C10_lookup_product_refines_spec.
+
+(* The executable property evaluated by the harness holds of the model on every well-formed input. *)
+Theorem C10_prop_of_model : forall i, run_C10 i <> VErr 0 -> prop_C10 i (run_C10 i) = true.
+Proof. exact prop_C10_of_model. Qed.
+Print Assumptions C10_prop_of_model.
+
+(* buildHostRoute ranges over a Go map, i.e. inserts in an unspecified order.  When the configured hosts are pairwise
+   distinct after normalisation (lower case, one trailing dot dropped: distinct trie paths), every lookup gives the
+   same answer for every insertion order; so the list-based model loses nothing.  (Hosts that collide after
+   normalisation, e.g. "A.com" and "a.com", are accepted by the loader and then resolved by map iteration order.) *)
+Theorem C10_order_irrelevant : forall (tbl tbl' : list host_entry) host,
+  NoDup (map (fun e => fst (entry_path e)) tbl) -> Permutation.Permutation tbl tbl' ->
+  find_host_route tbl host = find_host_route tbl' host.
+Proof. exact order_irrelevant. Qed.
+Print Assumptions C10_order_irrelevant.
+
 (* Non-vacuity: table {Example.com -> p1, *.example.com -> p2, *.com -> p3}; see the comments in the lemma. *)
 Example C10_examples :
   lookup_product ex_tbl [] [] [101;120;97;109;112;108;101;46;67;79;77;58;56;48;56;48] None = POk [116;49] [112;49] /\
